@@ -67,6 +67,13 @@ def option_sets():
     S.append(("dgrep-le-dt", "dgrep", ["<=2012-06-30T23:59:59"], ("dt", "junk")))
     S.append(("dgrep-eq", "dgrep", ["=2012-02-29"], ("d", "junk")))
     S.append(("dtest-like", "dgrep", ["-v", "<2000-01-01"], ("d", "junk")))
+    # several input formats that can read the same text: the first one given wins, whatever read the line before
+    S.append(("dconv-E-two-formats", "dconv", ["-E", "-i", "%d/%m/%Y", "-i", "%m/%d/%Y"], ("slash",)))
+    S.append(("dadd-E-two-formats", "dadd", ["-E", "-i", "%d/%m/%Y", "-i", "%m/%d/%Y", "+1d"], ("slash",)))
+    S.append(("dround-E-two-formats", "dround", ["-E", "-i", "%Y-%m-%d", "-i", "%Y-%d-%m", "Mon"], ("ydm",)))
+    S.append(("dconv-two-formats", "dconv", ["-i", "%d/%m/%Y", "-i", "%m/%d/%Y"], ("slash",)))
+    # libc's strptime only writes the fields its format names
+    S.append(("strptime-two-formats", "strptime", ["-i", "T%H:%M:%S", "-i", "D%Y-%m-%d", "-f", "%Y-%m-%d %H:%M:%S"], ("tm",)))
     # the reference value on the command line, the durations as stdin lines
     S.append(("dadd-ref-durs", "dadd", ["2012-03-01"], ("dur",)))
     S.append(("dadd-ref-dt-durs", "dadd", ["2012-01-31T12:00:00"], ("dur",)))
@@ -84,6 +91,13 @@ def pool_for(kinds, rng):
         out += POOL_JUNK
     if "day" in kinds:
         out += ["%02d" % d for d in range(1, 32)] + ["00", "32", "x"]
+    if "slash" in kinds:
+        return ["01/02/2000", "01/25/2000", "25/01/2000", "12/12/2012", "13/01/2000", "02/13/2000", "31/12/1999", "12/31/1999", "00/00/2000",
+                "junk", "", "1/2/2000", "05/06/2007", "07/06/2005", "29/02/2012", "02/29/2012", "30/02/2012"]
+    if "ydm" in kinds:
+        return ["2000-01-02", "2000-25-01", "2000-01-25", "2012-12-12", "2000-13-01", "1999-12-31", "1999-31-12", "x", "", "2012-02-29", "2012-29-02"]
+    if "tm" in kinds:
+        return ["D2000-01-01", "T12:34:56", "D1999-12-31", "T00:00:01", "T23:59:59", "D2012-02-29", "junk", "", "D2012-13-01", "T25:00:00", "D1970-01-01"]
     if "dur" in kinds:
         # durations: plain, compound, signed, and lines that start like a duration but are none
         out += ["1d", "3d", "-2d", "+1w", "1mo", "-1y", "2b", "1d2h", "1mo1d", "90m", "36h", "+0d", "1y2mo3d", "-1mo-1d",
